@@ -580,6 +580,22 @@ func (e *Env) trCall(x *ECall) TV {
 		cls := elemClass(types.Typ[types.Uint8])
 		arr := e.u.heapGet(e.st, cls, ArraySort(SInt, ArraySort(SInt, SInt)))
 		return TV{T: App("bytes_str", SString, Select(arr, App("s_arr", SInt, b.T)), App("s_off", SInt, b.T), App("s_len", SInt, b.T)), Ty: strT}
+	case "encBE16", "encBE32", "encBE64", "encLE64": // integer decoded from a byte slice at a byte offset (Enc.* record view)
+		need(2)
+		b := argOf(0)
+		cls := "Enc." + x.Fn[3:]
+		arr := e.u.heapGet(e.st, cls, ArraySort(SInt, ArraySort(SInt, SInt)))
+		return TV{T: Select(Select(arr, App("s_arr", SInt, b.T)), App("+", SInt, App("s_off", SInt, b.T), argOf(1).T)), Ty: intT}
+	case "foreign": // foreign(x): the reference was not allocated by the unit under verification (fresh or pre-existing elsewhere)
+		need(1)
+		a := argOf(0)
+		if e.u.allocBase.S == "" {
+			return TV{T: True, Ty: boolT}
+		}
+		if a.T.Sort == SSlice {
+			return TV{T: App("<", SBool, App("s_arr", SInt, a.T), e.u.allocBase), Ty: boolT}
+		}
+		return TV{T: App("<", SBool, a.T, e.u.allocBase), Ty: boolT}
 	case "arrOf": // identity of the backing array of a slice
 		need(1)
 		return TV{T: App("s_arr", SInt, argOf(0).T), Ty: intT}
